@@ -235,12 +235,28 @@ func genRoutes(r *rand.Rand, id string, size int, total int) []string {
 	}
 	kind := []string{"kv", "log", "doc"}[g.pick(3)]
 	keys := g.keys(1 + g.pick(3))
-	g.add("scn %s kind=%s acl=%s peers=%s", id, kind, joinInts(peers), joinInts(peers))
+	// in a third of the scenarios a block that no connected peer holds is "not found" at once (instead
+	// of the fetch waiting for a provider), and announcements still get through a cut link (relayed by
+	// the rest of the mesh): replicas then hold heads whose ancestors they failed to fetch
+	failfast := g.pick(3) == 0
+	if failfast {
+		g.add("scn %s kind=%s acl=%s peers=%s unreach=fail", id, kind, joinInts(peers), joinInts(peers))
+	} else {
+		g.add("scn %s kind=%s acl=%s peers=%s", id, kind, joinInts(peers), joinInts(peers))
+	}
 	up := map[[2]int]bool{}
 	for _, p := range peers {
 		for _, q := range peers {
 			up[[2]int{p, q}] = true
 		}
+	}
+	allUp := func(p int) bool {
+		for _, q := range peers {
+			if !up[[2]int{p, q}] {
+				return false
+			}
+		}
+		return true
 	}
 	other := func(p int) int {
 		q := peers[g.pick(len(peers))]
@@ -276,7 +292,7 @@ func genRoutes(r *rand.Rand, id string, size int, total int) []string {
 				g.add("sync %d %d", p, q)
 			}
 		case c < 62:
-			if up[[2]int{p, q}] {
+			if up[[2]int{p, q}] || (failfast && g.pick(2) == 0) {
 				g.add("pubdeliver %d %d %d", q, p, g.pick(50))
 			}
 		case c < 77:
@@ -291,7 +307,10 @@ func genRoutes(r *rand.Rand, id string, size int, total int) []string {
 			up[[2]int{p, q}], up[[2]int{q, p}] = true, true
 			g.add("heal %d %d", p, q)
 		default:
-			g.add("restart %d", p)
+			// (with failing lookups a reload is only comparable when every provider is reachable)
+			if !failfast || allUp(p) {
+				g.add("restart %d", p)
+			}
 		}
 		g.obsAll(peers)
 	}
